@@ -70,6 +70,7 @@ fn main() {
         "replay" => cmd_replay(&args[2..]),
         "selftest" => scen::selftest(&args[2..]),
         "digest" => cmd_digest(&args[2..]),
+        "mtsearch" => cmd_mtsearch(&args[2..]),
         _ => {
             eprintln!("unknown command {}", args[1]);
             2
@@ -746,4 +747,47 @@ fn cmd_replay(args: &[String]) -> i32 {
         println!("NOT-REPRODUCED {} ({} other violations)", want, viols.len());
         0
     }
+}
+
+
+/// Diagnostic: a fixed multi-thread scenario (spec JSON, as in a replay file) under many seeded schedules.
+/// usage: rsim mtsearch <spec.json> <count> [start]   - prints the first violations found, one replay file each
+fn cmd_mtsearch(args: &[String]) -> i32 {
+    let Some(path) = args.first() else { return 2 };
+    let n: u64 = args.get(1).and_then(|s| s.parse().ok()).unwrap_or(10_000);
+    let start: u64 = args.get(2).and_then(|s| s.parse().ok()).unwrap_or(0);
+    let j: Value = match std::fs::read_to_string(path).ok().and_then(|s| serde_json::from_str(&s).ok()) {
+        Some(j) => j,
+        None => return 2,
+    };
+    let specj = if j.get("spec").is_some() { j["spec"].clone() } else { j.clone() };
+    let Some(base) = mtscen::MtSpec::from_json(&specj) else { return 2 };
+    let nthreads = base.programs.len() as u64;
+    let mut found = 0;
+    for i in start..start + n {
+        let mut rng = rng::Rng::derive(0xABBA, i, 3);
+        let mut spec = mtscen::MtSpec::from_json(&specj).unwrap();
+        spec.schedule = None;
+        spec.sched_seed = rng.next_u64();
+        spec.strategy = match rng.below(3) {
+            0 => mt::Strategy::StallBeforeCas(*rng.pick(&[250u32, 500])),
+            _ => mt::Strategy::Victim { v: rng.below(nthreads) as u32, p: *rng.pick(&[30u32, 60, 120, 250]), lo: *rng.pick(&[10u32, 40, 80]), hi: *rng.pick(&[150u32, 400, 900]) },
+        };
+        let out = mtscen::run_spec(&spec, false);
+        if !out.viols.is_empty() {
+            found += 1;
+            for v in &out.viols {
+                println!("schedule {} -> {} {}", i, v.signature(), &v.detail[..v.detail.len().min(300)]);
+            }
+            let frozen = mtscen::freeze(&spec, &out);
+            let f = format!("/dev/shm/mtsearch-{}.json", i);
+            let _ = std::fs::write(&f, serde_json::to_string_pretty(&json!({"format": "rsim-replay-1", "scenario": "mt", "property": out.viols[0].prop, "seed": 0, "run": i, "signature": out.viols[0].signature(), "spec": frozen.to_json(), "violation": out.viols[0].to_json()})).unwrap());
+            println!("  replay {}", f);
+            if found >= 5 {
+                break;
+            }
+        }
+    }
+    println!("mtsearch: {} schedules, {} with violations", n, found);
+    0
 }
